@@ -1923,6 +1923,11 @@ pseudo_tcp_socket_recv_messages (PseudoTcpSocket *self,
          iter->buffer++) {
       GInputVector *buffer = &message->buffers[iter->buffer];
 
+      /* Nothing can be read into an empty buffer: pseudo_tcp_socket_recv()
+       * would return 0, which is taken for the end of the stream below. */
+      if (buffer->size == 0)
+        continue;
+
       do {
         gssize len;
 
